@@ -88,6 +88,33 @@ func c18Cases(tier string) []c18Case {
 			}
 		}
 	}
+	// G2b: the repeated type first occurs d object levels below the root, followed by siblings, and is used again later
+	for d := 1; d <= 6; d++ {
+		for _, w1 := range []string{"id", "slice", "ptr-omitempty", "mapstr"} {
+			s := reflect.TypeOf(C18Inner{})
+			t1, o1 := wrap(w1, s)
+			level := reflect.StructOf([]reflect.StructField{
+				{Name: "First", Type: t1, Tag: reflect.StructTag(fmt.Sprintf(`json:"first%s"`, o1))},
+				{Name: "Mid", Type: reflect.TypeOf(0), Tag: `json:"mid"`},
+				{Name: "Other", Type: anon, Tag: `json:"other"`},
+				{Name: "Again", Type: s, Tag: `json:"again"`},
+				{Name: "OtherAgain", Type: reflect.SliceOf(anon), Tag: `json:"other_again"`},
+			})
+			for k := 0; k < d; k++ {
+				level = reflect.StructOf([]reflect.StructField{
+					{Name: "N", Type: level, Tag: reflect.StructTag(fmt.Sprintf(`json:"n%d"`, d-k))},
+					{Name: "Pad", Type: reflect.TypeOf(""), Tag: `json:"pad"`},
+				})
+			}
+			root := reflect.StructOf([]reflect.StructField{
+				{Name: "Top", Type: level, Tag: `json:"top"`},
+				{Name: "Tail", Type: reflect.PtrTo(s), Tag: `json:"tail,omitempty"`},
+				{Name: "Tail2", Type: anon, Tag: `json:"tail2"`},
+			})
+			out = append(out, c18Case{Group: "repeat-deep", Desc: fmt.Sprintf("type first seen %d levels below the root as %s, with later siblings, reused later", d+1, w1),
+				Feature: fmt.Sprintf("repeat-deep:%d", d+1), T: root})
+		}
+	}
 	// G3: embedding built at run time
 	inner, inner2 := reflect.TypeOf(C18Inner{}), reflect.TypeOf(C18Inner2{})
 	emb := []struct {
@@ -512,7 +539,7 @@ func init() {
 		Count: func(tier string) int { return 3 * len(c18Cases(tier)) }, Eval: c18ListEval})
 	RegisterCheck("C18", func(c *Ctx) {
 		c.Level = "exploration"
-		c.Rule = "complete enumeration of a type grammar (16 leaf kinds incl. []byte, time.Time, interface{}, json.RawMessage, json.Number, net.IP; constructors pointer/slice/array/map[string]/map[int]/struct to depth 1 (quick) or 3 (thorough); 17 field-tag variants), 216 repeated-occurrence shapes, 12 embedding shapes and 18 compiled recursive/generic/standard-library types, each x 3 generation styles; oracle: independent python jsonschema Draft 2020-12 validator, RFC 6901 $ref resolution, field names compared with a reference model that is itself checked against encoding/json's output on every case"
+		c.Rule = "complete enumeration of a type grammar (16 leaf kinds incl. []byte, time.Time, interface{}, json.RawMessage, json.Number, net.IP; constructors pointer/slice/array/map[string]/map[int]/struct to depth 1 (quick) or 3 (thorough); 17 field-tag variants), 216 repeated-occurrence shapes, 24 deep repeated-occurrence shapes (first occurrence 2-7 object levels below the root), 12 embedding shapes and 18 compiled recursive/generic/standard-library types, each x 3 generation styles; oracle: independent python jsonschema Draft 2020-12 validator, RFC 6901 $ref resolution, field names compared with a reference model that is itself checked against encoding/json's output on every case"
 		c.Assume = append(c.Assume, "types beyond the grammar depth and field-tag combinations beyond one varied field per struct are not enumerated", "fully populated value = 3 deterministic variants per type (typical, boundary, alternative); recursive values are cut at depth 2 and types whose only finite values contain a mandatory nil pointer are exempt from the acceptance clause")
 		c.Enumerate("c18/hook")
 		c.Enumerate("c18/schemas")
